@@ -19,6 +19,7 @@ from btclib.curves import curve_group as CG
 from btclib.curves import curve_group_2 as CG2
 from btclib.curves.curve import CURVES, Curve, secp256k1
 from btclib.curves.curve_group import CurveGroup
+from btclib.curves import sec_point as SEC
 
 from . import common
 
@@ -256,6 +257,26 @@ _NEW_TAGS = [("p is not prime", "pprime"), ("negative a", "aneg"), ("p <= a", "a
              ("invalid cofactor", "cofactor"), ("n=p weak curve", "neqp"), ("weak curve: the embedding", "mov")]
 
 
+_SEC_TAGS = [("invalid size: ", "length"), ("invalid size for", "size"), ("invalid x-coordinate", "xinvalid"),
+             ("no bytes representation for infinity", "inf"), ("against the hybrid prefix", "parity"),
+             ("x-coordinate not in", "range"), ("y-coordinate not in", "range"), ("point not on curve", "offcurve"),
+             ("not a point: prefix", "prefix")]
+
+
+def _sec(fn, *a, **kw):
+    try:
+        Q = fn(*a, **kw)
+    except Exception as e:  # noqa: BLE001
+        c = common.err_class(e)
+        if c != "value":
+            return "err " + ("foreign" if c.startswith("foreign") else c)
+        for frag, tag in _SEC_TAGS:
+            if frag in str(e):
+                return "err value " + tag
+        return "err value other:" + str(e)[:40]
+    return f"ok {Q[0]} {Q[1]}"
+
+
 def _new(fn, *a, **kw):
     try:
         fn(*a, **kw)
@@ -359,6 +380,10 @@ def impl(line: str) -> str:
     if op == "curve.tweak":
         _Secrets.blind = int(t[2])
         return _ra(C._tweak_add_var, pa(t[3]), int(t[4]), curve_of_token(t[1]))
+    if op == "sec.dec":
+        return _sec(SEC.point_from_octets, b"" if t[3] == "_" else bytes.fromhex(t[3]), curve_of_token(t[1]), hybrid=t[2] == "1")
+    if op == "sec.enc":
+        return common.call_impl(SEC.bytes_from_point, pa(t[3]), curve_of_token(t[1]), t[2] == "1", render=lambda b: b.hex())
     if op == "curve.newgroup":
         return _new(CurveGroup, int(t[1]), int(t[2]), int(t[3]))
     if op == "curve.new":
@@ -588,7 +613,47 @@ def _o_malformed(w):
     return False, f"curve {args} accepted although malformed ({w['kind']})"
 
 
-ORACLES = {"curve.malformed_refused": _o_malformed, "ladder.grouplaw": _o_ladder, "mult.grouplaw": _o_public_mult, "mmult.grouplaw": _o_public_mmult,
+def _o_sec(w):
+    """whatever point_from_octets returns is a reduced point of the curve (never infinity) that re-encodes to the
+    input in the form the prefix names; whatever bytes_from_point encodes decodes back"""
+    ec = curve_of_token(w["curve"])
+    b = bytes.fromhex(w["hex"])
+    hyb = bool(w["hybrid"])
+    C.set_libsecp256k1_serving(serving=bool(w.get("serving", False)))
+    try:
+        try:
+            Q = SEC.point_from_octets(b, ec, hybrid=hyb)
+        except Exception as e:  # noqa: BLE001
+            ok = common.err_class(e) == "value"
+            if ok and w.get("canonical"):
+                return False, f"canonical encoding {b.hex()} refused: {e}"
+            return ok, f"raised {type(e).__name__}"
+        p = ec.p
+        if not (isinstance(Q, tuple) and len(Q) == 2 and 0 <= Q[0] < p and 0 < Q[1] < p):
+            return False, f"point_from_octets({b.hex()}, hybrid={hyb}) = {Q}: coordinates out of range"
+        if (Q[1] * Q[1] - (Q[0] ** 3 + ec._a * Q[0] + ec._b)) % p:
+            return False, f"point_from_octets({b.hex()}, hybrid={hyb}) = {Q}: not on the curve"
+        pre = b[0]
+        if pre in (2, 3):
+            want = bytes([2 + (Q[1] & 1)]) + Q[0].to_bytes(ec.p_size, "big")
+        else:
+            want = bytes([pre]) + Q[0].to_bytes(ec.p_size, "big") + Q[1].to_bytes(ec.p_size, "big")
+            if pre in (6, 7) and (not hyb or (Q[1] & 1) != pre - 6):
+                return False, f"hybrid prefix {pre} accepted with hybrid={hyb}, y parity {Q[1] & 1}"
+            if pre not in (4, 6, 7):
+                return False, f"prefix {pre} accepted"
+        if want != b:
+            return False, f"point_from_octets({b.hex()}) = {Q} re-encodes to {want.hex()}"
+        for comp in (True, False):
+            enc = SEC.bytes_from_point(Q, ec, comp)
+            if SEC.point_from_octets(enc, ec) != Q:
+                return False, f"bytes_from_point({Q}, compressed={comp}) does not decode back"
+        return True, f"{b.hex()} -> {Q}"
+    finally:
+        C.set_libsecp256k1_serving(serving=False)
+
+
+ORACLES = {"sec.codec": _o_sec, "curve.malformed_refused": _o_malformed, "ladder.grouplaw": _o_ladder, "mult.grouplaw": _o_public_mult, "mmult.grouplaw": _o_public_mmult,
            "offcurve.refused": _o_offcurve, "recode.sod": _o_sod, "recode.wnaf": _o_wnaf, "recode.glv": _o_glv,
            "nt.inverse": _o_inv, "nt.batch": _o_invbatch, "nt.sqrt": _o_sqrt, "nt.jacobi": _o_jacobi,
            "curvegroup.composite_refused": _o_pseudoprime}
@@ -1193,6 +1258,93 @@ def _run_constructors(ctx, rng):
                     ctx.count("malformed", "n_equals_p")
 
 
+def _run_sec(ctx, rng):
+    """SEC 1 codec: every prefix byte x {hybrid on/off} x {on-curve, off-curve, x >= p, y >= p, wrong parity,
+    wrong length, y = 0}, on secp256k1 and two toy curves"""
+    lines, enc = [], []
+    toks = ["secp256k1"]
+    for p, a, b in [(23, 1, 1), (251, 0, 7), (263, 2, 3)]:
+        tc = toy_curve(p, a, b)
+        for n, G in tc["subs"][-1:]:
+            tok = tok_sub(p, a, b, G, n, (1 + isqrt(4 * p) + p) // n)
+            try:
+                curve_of_token(tok)
+                toks.append(tok)
+            except Exception:  # noqa: BLE001
+                pass
+    ctx.count("sec", "curves", len(toks))
+    for tok in toks:
+        ec = curve_of_token(tok)
+        p, sz = ec.p, ec.p_size
+        top = 256 ** sz
+        P = _rand_point(rng, ec)
+        pts = [P, ec.G, ec.negate(P)]
+        for Q in pts:
+            x, y = Q
+            yoff = next(v for v in range(1, 60) if (v * v - y * y) % p)  # (x, yoff) is off the curve
+            bodies = {"on": (x, y), "neg": (x, p - y), "off": (x, yoff), "off2": ((x + 1) % p, y)}
+            if x + p < top:
+                bodies["x>=p"] = (x + p, y)
+            if y + p < top:
+                bodies["y>=p"] = (x, y + p)
+            bodies["y=0"] = (x, 0)
+            bodies["x=p"] = (p, y) if p < top else (x, y)
+            prefixes = range(256) if Q is P else (0, 1, 2, 3, 4, 5, 6, 7, 8, 0xFF)
+            for kind, (bx, by) in bodies.items():
+                xb, yb = bx.to_bytes(sz, "big"), by.to_bytes(sz, "big")
+                for pre in prefixes:
+                    if pre > 8 and kind not in ("on", "off", "x>=p"):
+                        continue
+                    for hyb in (0, 1):
+                        for body in ((xb + yb), xb) if (pre <= 8 or kind == "on") else ((xb + yb),):
+                            raw = bytes([pre]) + body
+                            lines.append(f"sec.dec {tok} {hyb} {raw.hex()}")
+                            canonical = (kind in ("on", "neg") and (
+                                (pre in (2, 3) and len(body) == sz and pre - 2 == (by & 1)) or
+                                (len(body) == 2 * sz and (pre == 4 or (hyb and pre in (6, 7) and pre - 6 == (by & 1))))))
+                            ctx.check("sec.codec", {"curve": tok, "hex": raw.hex(), "hybrid": hyb, "canonical": canonical},
+                                      nontrivial=canonical)
+            # wrong lengths
+            for pre in (2, 3, 4, 6, 7):
+                for ln in (0, 1, sz - 1, sz + 1, 2 * sz - 1, 2 * sz + 1):
+                    raw = bytes([pre]) + (x.to_bytes(sz, "big") + y.to_bytes(sz, "big") + b"\x00")[:ln]
+                    for hyb in (0, 1):
+                        lines.append(f"sec.dec {tok} {hyb} {raw.hex()}")
+            for comp in (0, 1):
+                for R in (Q, (x, yoff), (x, 0), (x + p, y), (x, y + p), (-1, y)):
+                    enc.append(f"sec.enc {tok} {comp} {atok(R)}")
+        lines.append(f"sec.dec {tok} 0 _")
+        # compressed forms of x that are no x-coordinate / x >= p
+        for _ in range(ctx.n(20, 200)):
+            xr = rng.randrange(top)
+            for pre in (2, 3):
+                raw = bytes([pre]) + xr.to_bytes(sz, "big")
+                lines.append(f"sec.dec {tok} {rng.randrange(2)} {raw.hex()}")
+                ctx.check("sec.codec", {"curve": tok, "hex": raw.hex(), "hybrid": 0})
+    # compressed encodings of the x of a point of order two (y = 0): on a curve of even order the lift finds the
+    # root 0, and the answer must still be a point of the curve, never (x, 0) (the spelling of infinity) or (x, p)
+    for tok in toks[1:]:
+        ec = curve_of_token(tok)
+        for T in [P for P in toy_points(ec.p, ec._a, ec._b) if P[1] == 0]:
+            for pre in (2, 3):
+                raw = bytes([pre]) + T[0].to_bytes(ec.p_size, "big")
+                lines.append(f"sec.dec {tok} 0 {raw.hex()}")
+                ctx.check("sec.codec", {"curve": tok, "hex": raw.hex(), "hybrid": 0}, key="sec.compressed_two_torsion")
+                ctx.count("sec", "two-torsion x")
+    ctx.stream("sec.dec", lines)
+    ctx.stream("sec.enc", enc)
+    if C._bindings_installed:  # the same property with the bindings serving (compressed lift goes through them)
+        ec = secp256k1
+        for _ in range(ctx.n(30, 300)):
+            Q = _rand_point(rng, ec)
+            for raw in (SEC.bytes_from_point(Q, ec, True), SEC.bytes_from_point(Q, ec, False),
+                        bytes([6 + (Q[1] & 1)]) + Q[0].to_bytes(32, "big") + Q[1].to_bytes(32, "big"),
+                        bytes([7 - (Q[1] & 1)]) + Q[0].to_bytes(32, "big") + Q[1].to_bytes(32, "big"),
+                        bytes([6 + (Q[1] & 1)]) + Q[0].to_bytes(32, "big") + ((Q[1] + 2) % ec.p).to_bytes(32, "big")):
+                for hyb in (0, 1):
+                    ctx.check("sec.codec", {"curve": "secp256k1", "hex": raw.hex(), "hybrid": hyb, "serving": True})
+
+
 def run(ctx):
     rng = ctx.rng
     _patch_secrets(True)
@@ -1205,6 +1357,7 @@ def run(ctx):
         pub = _run_multi(ctx, rng)
         _run_entry(ctx, rng, pub)
         _run_constructors(ctx, rng)
+        _run_sec(ctx, rng)
     finally:
         _patch_secrets(False)
         C.set_libsecp256k1_serving(serving=False)
